@@ -23,19 +23,6 @@ def argsOf : Term → List Term
   | .str _ args => args
   | _ => []
 
-/-- equal up to renaming: each is obtained from the other by a variable-for-variable substitution. -/
-def Variant (a b : Term) : Prop :=
-  ∃ ρ ρ' : String → Term, (∀ x, ∃ y, ρ x = .var y) ∧ (∀ x, ∃ y, ρ' x = .var y) ∧
-    a.subst ρ = b ∧ b.subst ρ' = a
-
-theorem subst_ground {u : Term} (h : u.vars = []) (ρ : String → Term) : u.subst ρ = u := by
-  conv => rhs; rw [← Term.subst_id u]
-  apply Term.subst_congr
-  intro x hx; rw [h] at hx; cases hx
-
-theorem applyS_ground {u : Term} (h : u.vars = []) (σ : Subst) : applyS σ u = u := by
-  rw [applyS_eq_subst]; exact subst_ground h _
-
 /-! ## functor/3 -/
 
 /-- Inspection mode: `functor(T, N, A)` with `T` non-variable and `N`, `A` distinct unbound
@@ -364,5 +351,297 @@ theorem C23_arg_pinned_eq {n : Term} (h : ∀ v, n = .int v → v < 2 ^ 64) (t x
       simp only [arg3Pinned]
       rw [if_neg (by omega)]
   | _ => simp [arg3Pinned]
+
+/-! ## =../2 -/
+
+/-- Decomposition: `T =.. L` with `T` compound and `L` an unbound variable not in `T` binds `L` to
+    `[Name|Args]`. -/
+theorem C23_univ_decompose (f : String) (args : List Term) {L : String} (hL : L ∉ varsL args) :
+    univ (.str f args) (.var L) = .ok [(L, Term.ofList (.atom f :: args))] := by
+  have he : univErrors (.str f args) (.var L) = none := by
+    rw [univErrors_partial _ _ (by simp [splitList_var])]; rfl
+  simp only [univ, he]
+  apply unifyAll_bind
+  rw [vars_ofList]
+  simpa [Term.varsL, Term.nil] using hL
+
+/-- … and for an atomic `T`, `L = [T]`. -/
+theorem C23_univ_decompose_atomic {c : Term} (hc : isAtomic c = true) (L : String) :
+    univ c (.var L) = .ok [(L, Term.ofList [c])] := by
+  have hv : c.vars = [] := by cases c <;> simp_all [isAtomic]
+  have he : univErrors c (.var L) = none := by
+    rw [univErrors_partial _ _ (by simp [splitList_var])]
+    cases c <;> simp_all [isVar, isAtomic]
+  have : L ∉ (Term.ofList [c]).vars := by
+    rw [vars_ofList]; simp [Term.varsL, hv, Term.nil]
+  cases c <;> simp_all [univ, isAtomic] <;> exact unifyAll_bind this
+
+/-- Construction: `T =.. [f|Args]` with `T` unbound, `f` an atom and at most `max_arity` arguments
+    not containing `T` binds `T` to `f(Args…)` (to the atom `f` when there are no arguments). -/
+theorem C23_univ_construct (x f : String) (args : List Term) (hx : x ∉ varsL args)
+    (hmax : args.length ≤ maxArity) :
+    univ (.var x) (Term.ofList (.atom f :: args)) = .ok [(x, mkStr f args)] := by
+  have hs := splitList_proper (.atom f :: args)
+  have hg : ¬ (args.length > maxArity) := by omega
+  have he : univErrors (.var x) (Term.ofList (.atom f :: args)) = none := by
+    rw [univErrors_proper]
+    simp [isVar, isAtom, isCompound, hg]
+  simp only [univ, he, hs]
+  simp [hx]
+
+/-- … `T =.. [C]` with `C` atomic binds `T` to `C`. -/
+theorem C23_univ_construct_atomic (x : String) {c : Term} (hc : isAtomic c = true) :
+    univ (.var x) (Term.ofList [c]) = .ok [(x, c)] := by
+  have hs := splitList_proper [c]
+  have he : univErrors (.var x) (Term.ofList [c]) = none := by
+    rw [univErrors_proper]
+    cases c <;> simp_all [isVar, isAtom, isCompound, isAtomic, maxArity]
+  simp only [univ, he, hs]
+  cases c <;> simp_all [isAtomic, Term.varsL, mkStr]
+
+/-- Round trip, both directions: decomposing `f(Args…)` gives `[f|Args]`, and constructing from
+    `[f|Args]` gives back a term identical to `f(Args…)`. -/
+theorem C23_univ_roundtrip (f : String) (a : Term) (as : List Term)
+    (hmax : (a :: as).length ≤ maxArity) {L x : String} (hL : L ∉ varsL (a :: as))
+    (hx : x ∉ varsL (a :: as)) :
+    univ (.str f (a :: as)) (.var L) = .ok [(L, Term.ofList (.atom f :: a :: as))] ∧
+    univ (.var x) (Term.ofList (.atom f :: a :: as)) = .ok [(x, .str f (a :: as))] :=
+  ⟨C23_univ_decompose f _ hL, by simpa [mkStr] using C23_univ_construct x f (a :: as) hx hmax⟩
+
+/-- Checking mode: for a compound `T`, once the list argument has passed the error checks, the
+    call is the unification of the list with `[Name|Args]`. -/
+theorem C23_univ_check (f : String) (args : List Term) {l : Term}
+    (he : univErrors (.str f args) l = none) :
+    univ (.str f args) l = unifyAll [(l, Term.ofList (.atom f :: args))] := by
+  simp [univ, he]
+
+/-- 8.5.3.3 a): `T` unbound and the list partial. -/
+theorem C23_univ_err_partial_list (x : String) {l : Term} (h : isVar (splitList l).2 = true) :
+    univ (.var x) l = .err instErr := by
+  simp [univ, univErrors_partial _ _ h]
+
+/-- 8.5.3.3 b): the second argument is neither a partial list nor a list (whatever `T` is). -/
+theorem C23_univ_err_not_list (t : Term) {l : Term} (h1 : isVar (splitList l).2 = false)
+    (h2 : isNil (splitList l).2 = false) : univ t l = .err (typeErr "list" l) := by
+  simp [univ, univErrors_not_list _ _ h1 h2]
+
+/-- 8.5.3.3 c): `T` unbound and the head of the list unbound. -/
+theorem C23_univ_err_var_head (x y : String) (xs : List Term) :
+    univ (.var x) (Term.ofList (.var y :: xs)) = .err instErr := by
+  simp [univ, univErrors_proper]
+
+/-- 8.5.3.3 d): a list of length ≥ 2 whose head is neither a variable nor an atom. -/
+theorem C23_univ_err_head_not_atom (t : Term) {h : Term} (a : Term) (as : List Term)
+    (h1 : isVar h = false) (h2 : isAtom h = false) :
+    univ t (Term.ofList (h :: a :: as)) = .err (typeErr "atom" h) := by
+  simp [univ, univErrors_proper, h1, h2]
+
+/-- 8.5.3.3 e): a one-element list whose element is compound. -/
+theorem C23_univ_err_compound_head (t : Term) (g : String) (as : List Term) :
+    univ t (Term.ofList [.str g as]) = .err (typeErr "atomic" (.str g as)) := by
+  simp [univ, univErrors_proper, isVar, isAtom, isCompound]
+
+/-- 8.5.3.3 f): `T` unbound and the list empty. -/
+theorem C23_univ_err_empty (x : String) :
+    univ (.var x) Term.nil = .err (domErr "non_empty_list" Term.nil) := by
+  have := univErrors_proper (.var x) []
+  simp only [Term.ofList, List.foldr_nil] at this
+  simp [univ, this]
+
+/-- 8.5.3.3 g): `T` unbound and more than `max_arity` arguments. -/
+theorem C23_univ_err_max_arity (x f : String) (args : List Term) (h : args.length > maxArity) :
+    univ (.var x) (Term.ofList (.atom f :: args)) = .err (repErr "max_arity") := by
+  simp [univ, univErrors_proper, isVar, isAtom, isCompound, h]
+
+/-! ## copy_term/2 -/
+
+/-- The copy is a variant of the original. -/
+theorem C23_copy_variant (avoid : List String) (t : Term) : Variant t (copyOf avoid t) := by
+  obtain ⟨hl, hn, ht⟩ := copy_facts avoid t
+  exact ⟨_, _, renameFn_isVar _ _, renameFn_isVar _ _, rfl, subst_rename_inv hl hn ht⟩
+
+/-- The copy shares no variable with the original, nor with any name to avoid (the variables of
+    the rest of the query): all its variables are fresh. -/
+theorem C23_copy_fresh (avoid : List String) (t : Term) {y : String}
+    (hy : y ∈ (copyOf avoid t).vars) : y ∉ avoid ∧ y ∉ t.vars := by
+  obtain ⟨hl, _, ht⟩ := copy_facts avoid t
+  have := freshNames_not_mem (vars_subst_rename hl ht hy)
+  simp only [List.mem_append, not_or] at this
+  exact ⟨this.1, fun h => this.2 (mem_termVars.mpr h)⟩
+
+/-- Sharing is preserved: the copy is the image of the original under ONE variable-for-variable
+    substitution (same variable ↦ same fresh variable) that is injective on the variables of the
+    original (different variables ↦ different fresh variables) and leaves every ground sub-term
+    as it is. -/
+theorem C23_copy_preserves_sharing (avoid : List String) (t : Term) :
+    ∃ ρ : String → Term, copyOf avoid t = t.subst ρ ∧ (∀ x, ∃ y, ρ x = .var y) ∧
+      (∀ x1 ∈ t.vars, ∀ x2 ∈ t.vars, ρ x1 = ρ x2 → x1 = x2) ∧
+      (∀ u : Term, u.vars = [] → u.subst ρ = u) := by
+  obtain ⟨hl, hn, ht⟩ := copy_facts avoid t
+  exact ⟨_, rfl, renameFn_isVar _ _,
+    fun x1 h1 x2 h2 e => renameFn_inj hl hn (ht x1 h1) (ht x2 h2) e,
+    fun u hu => subst_ground hu _⟩
+
+/-- A ground term is copied to itself. -/
+theorem C23_copy_ground (avoid : List String) {t : Term} (h : t.vars = []) : copyOf avoid t = t :=
+  subst_ground h _
+
+/-- Idempotent up to variance: a copy of a copy is a variant of the copy (and of the original). -/
+theorem C23_copy_idempotent (a1 a2 : List String) (t : Term) :
+    Variant (copyOf a2 (copyOf a1 t)) (copyOf a1 t) ∧ Variant (copyOf a2 (copyOf a1 t)) t :=
+  ⟨(C23_copy_variant a2 _).symm, ((C23_copy_variant a1 t).trans (C23_copy_variant a2 _)).symm⟩
+
+/-- `copy_term(T, C)` with `C` an unbound variable: `C` is bound to the copy, whose variables are
+    fresh w.r.t. `T`, `C` and the rest of the query; no variable of `T` is bound (the original is
+    unchanged). -/
+theorem C23_copy_term_fresh_target (avoid : List String) (t : Term) (c : String) :
+    copyTerm avoid t (.var c) = .ok [(c, copyOf (avoid ++ [c]) t)] ∧
+    (c ∉ t.vars → applyS [(c, copyOf (avoid ++ [c]) t)] t = t) := by
+  constructor
+  · unfold copyTerm
+    simp only [Term.vars]
+    apply unifyAll_bind
+    intro h
+    have := (C23_copy_fresh (avoid ++ [c]) t h).1
+    simp at this
+  · intro hc
+    simp only [applyS]
+    exact subst1_of_not_mem hc
+
+/-- in general `copy_term(T, C)` is the unification of `C` with the fresh copy. -/
+theorem C23_copy_term_spec (avoid : List String) (t c : Term) :
+    copyTerm avoid t c = unifyAll [(c, copyOf (avoid ++ c.vars) t)] := rfl
+
+/-! ## term_variables/2 and ground/1 -/
+
+/-- no duplicates. -/
+theorem C23_term_variables_nodup (t : Term) : (termVars t).Nodup := termVars_nodup t
+
+/-- exactly the variables of the term. -/
+theorem C23_term_variables_mem (t : Term) (x : String) : x ∈ termVars t ↔ x ∈ t.vars :=
+  mem_termVars
+
+/-- depth-first left-to-right first-occurrence order: the result is the first-occurrence
+    de-duplication `nub` of the left-to-right sequence `t.vars` of all variable occurrences, where
+    `nub` is pinned down by `nub [] = []` and
+    `nub (l ++ [x]) = if x ∈ l then nub l else nub l ++ [x]`. -/
+theorem C23_term_variables_order :
+    ∃ nub : List String → List String, nub [] = [] ∧
+      (∀ l x, nub (l ++ [x]) = if x ∈ l then nub l else nub l ++ [x]) ∧
+      ∀ t, termVars t = nub t.vars := by
+  refine ⟨nubFrom [], rfl, ?_, termVars_eq⟩
+  intro l x
+  rw [nubFrom_append]
+  show insertNew (nubFrom [] l) x = _
+  unfold insertNew
+  have : x ∈ nubFrom [] l ↔ x ∈ l := by rw [mem_nubFrom]; simp
+  by_cases h : x ∈ l
+  · simp [h, this.mpr h]
+  · have h2 : x ∉ nubFrom [] l := fun h' => h (this.mp h')
+    simp [h, h2]
+
+/-- `term_variables(T, Vs)` with `Vs` an unbound variable not in `T`. -/
+theorem C23_term_variables_fresh_target (t : Term) {V : String} (hV : V ∉ t.vars) :
+    termVariables t (.var V) = .ok [(V, Term.ofList ((termVars t).map Term.var))] := by
+  have : canBeList (.var V) = true := by simp [canBeList, isVar]
+  simp only [termVariables, this, if_true]
+  apply unifyAll_bind
+  rw [vars_ofList, varsL_map_var]
+  simp only [Term.nil, Term.vars_atom, List.append_nil]
+  exact fun h => hV (mem_termVars.mp h)
+
+/-- the second argument must be a partial list or a list (8.5.5.3). -/
+theorem C23_term_variables_type_error (t : Term) {vs : Term} (h : canBeList vs = false) :
+    termVariables t vs = .err (typeErr "list" vs) := by
+  simp [termVariables, h]
+
+/-- `ground(T)` succeeds iff `T` has no variable iff `term_variables(T, [])` succeeds. -/
+theorem C23_ground_iff (t : Term) :
+    (ground1 t = .ok [] ↔ t.vars = []) ∧ (t.vars = [] ↔ termVars t = []) ∧
+    (termVars t = [] ↔ termVariables t Term.nil = .ok []) := by
+  refine ⟨?_, ?_, ?_⟩
+  · unfold ground1
+    rw [← groundB_iff]
+    cases groundB t <;> simp
+  · constructor
+    · intro h; rw [termVars_eq, h]; rfl
+    · intro h
+      cases hv : t.vars with
+      | nil => rfl
+      | cons x l =>
+          have : x ∈ termVars t := mem_termVars.mpr (by rw [hv]; exact List.mem_cons_self ..)
+          rw [h] at this; cases this
+  · have hc : canBeList Term.nil = true := by simp [canBeList, isVar, isNil, Term.nil, splitList]
+    simp only [termVariables, hc, if_true]
+    cases htv : termVars t with
+    | nil => simp [Term.ofList, unifyAll, Term.nil, solve, constEq, ofOutcome]
+    | cons x l =>
+        simp [Term.ofList, unifyAll, Term.nil, Term.cons, solve, constEq, ofOutcome]
+
+/-- ground/1 never raises an error and never binds. -/
+theorem C23_ground_no_error (t : Term) : ground1 t = .ok [] ∨ ground1 t = .fail := by
+  unfold ground1; split <;> simp
+
+/-! ## subsumes_term/2 -/
+
+/-- The mirrored algorithm (collect the variables of `S`, unify with occurs check, collect the
+    variables of the instantiated list, compare with `==`) succeeds iff `G` subsumes `S` in the
+    sense of ISO 8.2.4: some substitution leaving the variables of `S` alone makes `G` identical
+    to `S`. -/
+theorem C23_subsumes_iff (g s : Term) : subsumes g s = true ↔ Subsumes g s := subsumes_iff g s
+
+/-- `subsumes_term/2` never leaves a binding and never raises an error. -/
+theorem C23_subsumes_no_bindings (g s : Term) :
+    subsumesTerm g s = .ok [] ∨ subsumesTerm g s = .fail := by
+  unfold subsumesTerm; split <;> simp
+
+/-- every term subsumes itself. -/
+theorem C23_subsumes_refl (t : Term) : subsumes t t = true :=
+  (subsumes_iff t t).mpr ⟨Term.var, fun _ _ => rfl, Term.subst_id t⟩
+
+/-- for a ground `S`: `G` subsumes `S` iff `S` is an instance of `G`. -/
+theorem C23_subsumes_ground (g : Term) {s : Term} (hs : s.vars = []) :
+    subsumes g s = true ↔ ∃ θ : String → Term, g.subst θ = s := by
+  rw [subsumes_iff]
+  constructor
+  · rintro ⟨θ, _, h⟩; exact ⟨θ, h⟩
+  · rintro ⟨θ, h⟩
+    refine ⟨θ, ?_, h⟩
+    intro x hx
+    rw [hs] at hx
+    cases hx
+
+/-- a subsumed term is an instance; a term with a variable of its own is not subsumed by a
+    proper instance-maker of that variable: `f(X)` does not subsume `f(g(X))`. -/
+theorem C23_subsumes_shared_variable_example :
+    subsumes (.str "f" [.var "X"]) (.str "f" [.str "g" [.var "X"]]) = false := by
+  cases h : subsumes (.str "f" [.var "X"]) (.str "f" [.str "g" [.var "X"]]) with
+  | false => rfl
+  | true =>
+      obtain ⟨θ, hfix, heq⟩ := (subsumes_iff _ _).mp h
+      have hx : θ "X" = .var "X" := hfix "X" (by simp [Term.vars, Term.varsL])
+      simp [Term.subst, Term.substL, hx] at heq
+
+/-! ## non-vacuity -/
+
+example : functor3 [] (.str "f" [.var "X", .atom "a"]) (.var "N") (.var "A") =
+    .ok [("A", .int 2), ("N", .atom "f")] :=
+  C23_functor_inspect [] rfl (by decide)
+
+example : ∃ fresh : List String, fresh.length = 3 ∧
+    functor3 ["T"] (.var "T") (.atom "foo") (.int 3) = .ok [("T", .str "foo" (fresh.map .var))] := by
+  obtain ⟨fr, h1, _, _, h⟩ := C23_functor_construct ["T"] "T" "foo" (k := 3) (by decide) (by decide)
+  exact ⟨fr, h1, h⟩
+
+example : arg3 (.int 2) (.str "f" [.atom "a", .atom "b"]) (.var "X") = .ok [("X", .atom "b")] :=
+  C23_arg_select "f" [.atom "a", .atom "b"] 1 (by decide) (by simp)
+
+example : subsumes (.str "f" [.var "X", .var "Y"]) (.str "f" [.var "Z", .var "Z"]) = true :=
+  (subsumes_iff _ _).mpr ⟨fun x => if x = "X" ∨ x = "Y" then .var "Z" else .var x,
+    by intro x hx; simp [Term.vars, Term.varsL] at hx; subst hx; simp,
+    by simp [Term.subst, Term.substL]⟩
+
+example : Variant (.str "f" [.var "X", .var "Y", .var "X"])
+    (copyOf ["X", "Y"] (.str "f" [.var "X", .var "Y", .var "X"])) := C23_copy_variant _ _
 
 end Scryer.C23
